@@ -553,7 +553,7 @@ def leaf_index(groups, path):
 
 def observe_two_level(c, aux):
     g, C = aux['g'], aux['C']
-    den = 2 if c['kind'] == 'group' else 1
+    den = 2 if c['kind'] == 'group' else c.get('den', 1)
     pc_in = True if c['kind'] == 'group' else c['pcIn']
     desc, groups = two_level_desc(g, c['outOrd'], c['inOrd'], c['pcOut'], pc_in)
 
@@ -592,17 +592,17 @@ def replay_layouts(states, extra):
     sample = None
     for st in states:
         c = st['c']
-        if c['kind'] not in ('group', 'nested'):
+        if c['kind'] not in ('group', 'nested', 'rect'):
             continue
         n += 1
         obs = observe_two_level(c, st['aux'])
         g = st['aux']['g']
         if obs not in st['out']:
             b = {'kind': c['kind'], 'grouping': g, 'outOrd': c['outOrd'], 'inOrd': c['inOrd'], 'pcOut': c['pcOut'],
-                 'pcIn': c.get('pcIn', True), 'C': st['aux']['C'], 'observed': obs, 'allowed': st['out']}
+                 'pcIn': c.get('pcIn', True), 'den': c.get('den', 1), 'C': st['aux']['C'], 'observed': obs, 'allowed': st['out']}
             bad.append(b if len(bad) < 40 else None)
         sizes = tuple(sorted(g.count(k) for k in set(g)))
-        keys.add((c['kind'], sizes if c['kind'] == 'group' else len(st['out']), c['outOrd'], c['inOrd'], c['pcOut']))
+        keys.add((c['kind'], sizes if c['kind'] != 'nested' else len(st['out']), c['outOrd'], c['inOrd'], c['pcOut']))
         if sample is None:
             sample = {'grouping': g, 'case': {k: v for k, v in c.items() if k in ('outOrd', 'inOrd', 'pcOut', 'pcIn', 'pat')},
                       'allowed': st['out'][:3], 'observed': obs}
@@ -768,6 +768,8 @@ class RandomCredits(object):
         r = self.rng
         if self.style == 'binary':
             return Fraction(r.choice([0, 0, 1]))
+        if self.style == 'sparse':                         # low totals: small credits decide the assignment
+            return r.choice([Fraction(0)] * 5 + [Fraction(1, 2), Fraction(1)])
         if self.style == 'ties':
             return r.choice([Fraction(0), Fraction(1, 2), Fraction(1, 2), Fraction(1)])
         return r.choice(PALETTE)
@@ -812,7 +814,7 @@ class RandomCredits(object):
 def make_random_case(seed, i, max_n):
     rng = random.Random('%s-%d' % (seed, i))
     desc = rand_layout(rng, max_n)
-    cr = RandomCredits(rng, rng.choice(['palette', 'palette', 'binary', 'ties']))
+    cr = RandomCredits(rng, rng.choice(['palette', 'palette', 'binary', 'ties', 'sparse']))
     if rng.random() < .35:
         cr.plant_perfect(desc, [], list(range(1, npos(desc) + 1)))
     return desc, cr
@@ -1068,7 +1070,8 @@ def layout_class(b):
 def run(ctx):
     from engine.main import Machinery
     total_calls = 0
-    parts = [('flat', 'replay_flat'), ('group', 'replay_layouts'), ('nested', 'replay_layouts'), ('gmap', 'replay_gmap')]
+    parts = [('flat', 'replay_flat'), ('group', 'replay_layouts'), ('nested', 'replay_layouts'), ('rect', 'replay_layouts'),
+             ('gmap', 'replay_gmap')]
     for part, fn in parts:
         d = os.path.join(ctx.scratch, 'cases_' + part)
         ctx.tlc('graders/MC_ListGrading.tla', 'graders/MC_ListGrading_%s_%s.cfg' % (part, ctx.tier), dump=d, timeout=3000)
@@ -1173,6 +1176,8 @@ def run(ctx):
                                '5 (6 with <= 3 groups)' if ctx.quick else '6 (7 with <= 3 groups, 8 with 2 groups)'),
                            'groupings_group_map': 'all valid groupings of <= %d inputs: laws + helper drift monitor + 1/%d through a real grader' % (
                                6 if ctx.quick else 8, 4 if ctx.quick else 24),
+                           'rectangular_groups': 'unordered 2x3, 2x4, 3x2 groups, contiguous and interleaved, banded 0/1 and 0/half/1 '
+                                                 'credits with every low cell credit, inner ordered/unordered, partial credit on/off',
                            'grader_calls_replayed': total_calls,
                            'matching_core_records': '%d random flat unordered problems, 4..7 inputs, credits k/den for den in 1..4, '
                                                     'n! enumeration at 4 inputs, checked LP-duality certificate above' % len(cgood)}
@@ -1213,8 +1218,8 @@ def replay(ctx, rec):
         print('was observed:', sig['observed'])
         print('allowed (first):', sig['allowed'][:6])
         return obs in sig['allowed']
-    if sig.get('kind') in ('group', 'nested'):
-        c = {'kind': sig['kind'], 'outOrd': sig['outOrd'], 'inOrd': sig['inOrd'], 'pcOut': sig['pcOut'], 'pcIn': sig['pcIn']}
+    if sig.get('kind') in ('group', 'nested', 'rect'):
+        c = {'kind': sig['kind'], 'outOrd': sig['outOrd'], 'inOrd': sig['inOrd'], 'pcOut': sig['pcOut'], 'pcIn': sig['pcIn'], 'den': sig.get('den', 1)}
         obs = observe_two_level(c, {'g': sig['grouping'], 'C': sig['C']})
         print('observed now:', obs)
         print('allowed (first):', sig['allowed'][:6])
